@@ -123,6 +123,9 @@ def run(ctx: Ctx):
     ifs = [ast.unparse(c) for g_ in un[0].value.generators for c in g_.ifs] if isinstance(un[0].value, ast.ListComp) else ["?"]
     ctx.ob("C05-O4", "R12 NO-CARDINALITY-CUTOFF", bt, "the search branches on every variable that still has more than one value (unnamed ones included)", ifs == ["len(domains[n]) > 1"], f"branching set filtered by {ifs}: a variable that is never branched on is never decided - a model whose constraints over such variables cannot hold is answered with a solution (all_different over three unnamed 0..1 variables)", node=un[0])
 
+    from .sat_common import _need
+
+    _need(ctx, "C05-O4", "R14 GATE", ctx.func("cp", "Model._propagate"), "propagation fails on an empty domain before and after every constraint pass (a variable with an empty range has no value even in a model without constraints)", ["if any((not d for d in domains.values())):\n        return False", "for n, d in domains.items():\n                if not d:\n                    return False"], "without the test in front a model whose only flaw is an empty range reaches the leaf, where the value of that variable is read from an empty set")
     # O5 hints
     check_hints(ctx, dfs, sink="domains")
     check_hints(ctx, ctx.func("cp_encoder", "SATEncoder.solve"), sink="assumptions")
@@ -315,8 +318,7 @@ def _v_domain_widened(tree):
 
 def _v_resync_counter(tree):
     g = M.find_func(tree, "SATEncoder._create_int_var")
-    M.replace_stmt(g, lambda s: isinstance(s, ast.For) and M.src_has(s, "self._new_bool_var()"), M.stmts("self._next_bool = self.model._next_bool"))
-    M.replace_stmt(g, lambda s: M.src_is(s, "var.bool_vars = {}"), [])
+    M.replace_stmt(g, lambda s: isinstance(s, ast.Assign) and M.src_has(s.value, "IntVar(self, lb, ub, name)"), M.stmts("var = IntVar(self.model, lb, ub, name)\nself._next_bool = self.model._next_bool"))
 
 
 def _v_aux_registered(tree):
@@ -372,6 +374,26 @@ def _v_dfs_skips_unnamed(tree):
     M.replace_expr(g, lambda e: isinstance(e, ast.ListComp) and M.src_has(e, "len(domains[n]) > 1"), M.expr("[n for n in domains if len(domains[n]) > 1 and not n.startswith('_')]"))
 
 
+def _v_aux_through_model(tree):
+    g = M.find_func(tree, "SATEncoder._create_int_var")
+    M.replace_expr(g, lambda e: M.src_is(e, "IntVar(self, lb, ub, name)"), M.expr("IntVar(self.model, lb, ub, name)"))
+
+
+def _v_sum_le_empty_unchecked(tree):
+    g = M.find_func(tree, "SATEncoder._encode_sum_le")
+    M.replace_stmt(g, lambda s: isinstance(s, ast.If) and M.src_is(s.test, "target < 0"), [])
+
+
+def _v_empty_range_ignored(tree):
+    g = M.find_func(tree, "SATEncoder._encode_exactly_one")
+    M.replace_stmt(g, lambda s: isinstance(s, ast.Expr) and M.src_is(s.value, "self._clauses.append([])"), [])
+
+
+def _v_propagate_no_initial_wipeout(tree):
+    g = M.find_func(tree, "Model._propagate")
+    M.replace_stmt(g, lambda s: isinstance(s, ast.If) and M.src_has(s.test, "any("), [])
+
+
 def _v_alldiff_propagator_gutted(tree):
     g = M.find_func(tree, "Model._propagate_all_different")
     g.body = M.stmts("return True")
@@ -397,6 +419,10 @@ def _v_alldiff_min_ub(tree):
 
 
 VARIANTS = [
+    M.Variant("auxiliary variables are built through the model: every solve advances the model's literal counter (original defect)", ENC, _v_aux_through_model, "C05-O10"),
+    M.Variant("sum_le over no variables emits nothing (original defect)", ENC, _v_sum_le_empty_unchecked, "C05-O14"),
+    M.Variant("a variable with an empty range is skipped by the encoder (original defect)", ENC, _v_empty_range_ignored, "C05-O14"),
+    M.Variant("DFS propagation tests for an empty domain only after a constraint pass (original defect)", CP, _v_propagate_no_initial_wipeout, "C05-O4"),
     M.Variant("DFS all_different tells positions apart by identity: all_different([x, x]) is accepted (original defect)", CP, _v_alldiff_identity, "C05-O14"),
     M.Variant("DFS never branches on unnamed (`_v...`) variables (original defect)", CP, _v_dfs_skips_unnamed, "C05-O4"),
     M.Variant("linear != removes the floored quotient without divisibility test (seed C05-A)", CP, _v_no_divisibility, "C05-O8"),
